@@ -3,6 +3,7 @@ import IoraModel.Lemmas.WsStream
 import IoraModel.Lemmas.WsClient
 import IoraModel.Lemmas.WsEndpoint
 import IoraModel.Lemmas.WsUpgrade
+import IoraModel.Lemmas.WsHandover
 import IoraModel.Lemmas.Utf8
 import IoraModel.Model.WsSkel
 import IoraModel.Lemmas.WsConc
@@ -280,15 +281,134 @@ theorem W6_server_buffer_bounded (max : Nat) (cb : Cbs) (ops : List AppOp) : (ru
 theorem W6_server_fragment_bounded (max : Nat) (cb : Cbs) (ops : List AppOp) : (run max cb {} ops).1.fragBuf.length ≤ max :=
   (run_bounded max cb ops {} ⟨by simp; omega, by simp⟩).2
 
-/-- the same bounds for a session created by an upgrade request that arrived together with `trailing` bytes -/
+/-- the bounds hold for a session created by an upgrade request that arrived together with `trailing` bytes (sequential
+hand-over: the pool thread finishes before the next read; the general case is `C18_upgrade_handover`) -/
 theorem W6_server_upgrade_boundary (max : Nat) (cb : Cbs) (trailing : Bytes) (ops : List AppOp) :
-    (upgrade max cb trailing).2 = [.connected, .upgraded] ++ (run max cb {} (if trailing.isEmpty then [] else [.data trailing])).2 ∧
-    Bounded max (run max cb (upgrade max cb trailing).1 ops).1 := by
-  refine ⟨?_, run_bounded max cb ops _ (upgrade_bounded max cb trailing)⟩
-  unfold upgrade
-  by_cases ht : trailing.isEmpty = true
-  · simp [ht, run]
-  · simp [ht, run, step]
+    Bounded max (run max cb (upgrade max cb trailing).1 ops).1 :=
+  run_bounded max cb ops _ (upgrade_bounded max cb trailing)
+
+/-- **W6e (bounded buffering ACROSS connections; repair FC18g).** Once the transport has closed the connection
+(`handleSessionClosed` → `onSessionClosed`), whatever the session held - unparsed bytes, a half-reassembled message of up
+to `max` bytes - is released, and nothing that happens afterwards under that session id (late sends, reads still in
+flight) makes it retain a byte again. Before the repair the entry stayed for the lifetime of the server whenever the
+connection ended without the close handshake. -/
+theorem W6_transport_close_frees (max : Nat) (cb : Cbs) (ops ops' : List AppOp) :
+    (run max cb {} (ops ++ AppOp.transportClosed :: ops')).1 = { alive := false } := by
+  rw [run_append]
+  simp only [run, step, erase]
+  exact run_erased max cb ops'
+
+/-- non-vacuity: a non-final fragment of 3 bytes IS retained until the transport closes -/
+example : (run 100 {} {} [.data (serialize (mkFrame 2 false [1, 2, 3]))]).1.fragBuf = [1, 2, 3] ∧
+    (run 100 {} {} [.data (serialize (mkFrame 2 false [1, 2, 3])), .transportClosed]).1.fragBuf = [] := by decide
+
+/-- the limits an endpoint has when the application never configures one are the documented 16 MiB (the bounds W6c/W6d
+with `max` = this value are what an unconfigured server or client guarantees); both are far below 2^32 -/
+theorem W6_default_limits :
+    Gen.Ws.serverDefaultMaxFrameSize = 16 * 1024 * 1024 ∧ Gen.Ws.clientMaxFramePayload = 16 * 1024 * 1024 ∧
+    Gen.Ws.clientMaxUpgradeResponse = 64 * 1024 ∧ Gen.Ws.httpMaxBufferSize = 1024 * 1024 := by decide
+
+/-! ## The upgrade boundary under concurrency (pool thread ∥ I/O thread; repair FC18f) -/
+
+/-- the shape facts of the hand-over the model assumes, as the translator finds them in the working tree: the head of
+`handleIncomingData` tests the hold before the route, in one `_sessionMutex` section, and only queues; the request loop
+sets the hold in the section that stores the bytes behind the Upgrade request and then leaves the loop (those bytes are
+never scanned for CR LF CR LF); the drain loop releases the hold in the section that finds the buffer empty; every other
+exit of `processHttpRequest` releases it; the transport-close callback calls the hook that erases the WebSocket entry;
+and the pool thread's steps come in the order of `HPc`. -/
+theorem C18_handover_pinned :
+    Gen.Ws.handoverFacts.all (·.2) = true ∧ Gen.Ws.handoverFacts.length = 6 ∧
+    Gen.Ws.upgradeWorkerOrder = ["mark", "create", "connect", "respond", "drain"] := by decide
+
+/-- **The hand-over loses, reorders and anticipates nothing — for EVERY schedule.** The Upgrade request has been
+extracted with `trailing` behind it; from there the pool thread (mark, create, `_onConnect`, 101, drain loop) and the I/O
+thread (any number of reads, cut anywhere) interleave in ANY way. Then, at every point of every schedule: the events so
+far are the connect / 101 events followed by exactly what `onUpgradedData` produces for SOME segmentation `segs` of a
+prefix of `trailing ++ reads` (so nothing reaches the WebSocket parser before the 101, out of order, or twice), the rest
+of `trailing ++ reads` waits in order (in the drain loop's hand, then the session buffer), and once the pool thread is done
+nothing waits. Needs only that the bytes held back fit `SessionInfo::MAX_BUFFER_SIZE` (beyond it the connection is closed). -/
+theorem C18_upgrade_handover (maxBuf max : Nat) (cb : Cbs) (trailing : Bytes) (sched : List HStep)
+    (hfit : (trailing ++ readsOf sched).length ≤ maxBuf) :
+    ∃ segs : List Bytes,
+      (hRun maxBuf max cb (hInit trailing) sched).2 =
+        (hRun maxBuf max cb (hInit trailing) sched).1.pc.pre ++ (run max cb {} (segs.map AppOp.data)).2 ∧
+      segs.flatten ++ (hRun maxBuf max cb (hInit trailing) sched).1.pc.inflight ++ (hRun maxBuf max cb (hInit trailing) sched).1.httpBuf
+        = trailing ++ readsOf sched ∧
+      ((hRun maxBuf max cb (hInit trailing) sched).1.pc = .done →
+        segs.flatten = trailing ++ readsOf sched ∧ (hRun maxBuf max cb (hInit trailing) sched).1.sess = (run max cb {} (segs.map AppOp.data)).1) := by
+  obtain ⟨segs, hi⟩ := hRun_total maxBuf max cb trailing sched hfit
+  refine ⟨segs, hi.evs_eq, hi.bytes, fun hd => ?_⟩
+  have hb := hi.bytes
+  rw [hd, hi.drained hd] at hb
+  exact ⟨by simpa [HPc.inflight] using hb, hi.sess_eq (by rw [hd]; simp) (by rw [hd]; simp)⟩
+
+/-- **W3 across the upgrade boundary, any schedule.** Two runs of the hand-over - different cuts of the same valid frame
+stream into "arrived with the request" and later reads, different interleavings of the two threads - that have both
+finished deliver the SAME messages to the application, in the same order. (With `trailing` in the same read as the
+request and a read inside `_onConnect`, the unrepaired code delivered the later read first: `C18_old_handover_refuted`.) -/
+theorem C18_upgrade_schedule_independent (maxBuf max : Nat) (cb : Cbs) (fs : List Frame) (hv : ValidFrames max fs)
+    (t1 t2 : Bytes) (s1 s2 : List HStep)
+    (h1 : t1 ++ readsOf s1 = stream fs) (h2 : t2 ++ readsOf s2 = stream fs) (hfit : (stream fs).length ≤ maxBuf)
+    (d1 : (hRun maxBuf max cb (hInit t1) s1).1.pc = .done) (d2 : (hRun maxBuf max cb (hInit t2) s2).1.pc = .done) :
+    msgs (hRun maxBuf max cb (hInit t1) s1).2 = msgs (hRun maxBuf max cb (hInit t2) s2).2 := by
+  obtain ⟨g1, e1, _, f1⟩ := C18_upgrade_handover maxBuf max cb t1 s1 (by rw [h1]; exact hfit)
+  obtain ⟨g2, e2, _, f2⟩ := C18_upgrade_handover maxBuf max cb t2 s2 (by rw [h2]; exact hfit)
+  rw [e1, e2, d1, d2]
+  simp only [msgs_append]
+  rw [W3_server_messages_segmentation_independent max cb fs hv g1 g2 ((f1 d1).1.trans h1) ((f2 d2).1.trans h2)]
+
+/-- non-vacuity: `two` arrives while the pool thread is inside `_onConnect`, `one` came with the request; the pool thread
+then finishes: both are delivered, `one` first (and the same schedule on the unrepaired hand-over: below) -/
+example : (hRun 1000 100 {} (hInit (serialize (mkFrame 2 true [111])))
+      [.worker, .worker, .worker, .read (serialize (mkFrame 2 true [116])), .worker, .worker, .worker, .worker]).1.pc = .done ∧
+    (hRun 1000 100 {} (hInit (serialize (mkFrame 2 true [111])))
+      [.worker, .worker, .worker, .read (serialize (mkFrame 2 true [116])), .worker, .worker, .worker, .worker]).2 =
+      [.connected, .upgraded, .binary [111], .binary [116]] := by decide
+
+/-- what the hand-over must guarantee, said of a run function `r` (schedule ↦ events): all finished schedules of the
+same byte stream deliver the same messages -/
+def HandoverOrdered (r : Bytes → List HStep → List Ev) : Prop :=
+  ∀ (t1 t2 : Bytes) (s1 s2 : List HStep), t1 ++ readsOf s1 = t2 ++ readsOf s2 → msgs (r t1 s1) = msgs (r t2 s2)
+
+/-- **The unrepaired hand-over is refuted** (`oRun`: no hold, route by `_upgradedSessions` alone, drain once): with `one`
+behind the request and `two` read while the pool thread is between the mark and the drain, `two` is delivered BEFORE
+`one`; read after the drain it comes second. Same bytes, different deliveries. -/
+theorem C18_old_handover_refuted : ¬ HandoverOrdered (fun t s => (oRun 100 {} (hInit t) s).2) := by
+  intro h
+  have := h (serialize (mkFrame 2 true [111])) (serialize (mkFrame 2 true [111]))
+    [.worker, .worker, .worker, .read (serialize (mkFrame 2 true [116])), .worker, .worker, .worker]
+    [.worker, .worker, .worker, .worker, .worker, .worker, .read (serialize (mkFrame 2 true [116]))] rfl
+  revert this
+  decide
+
+/-- **which requests are upgraded** (`onUpgradeRequest`, RFC 6455 4.2.1): exactly those whose `Upgrade` value is `websocket`
+in any case, whose `Connection` value contains `upgrade` in any case, that carry a key and ask for version 13; the others are
+answered (400 / 426) or left to the HTTP dispatch - in both cases no session is marked or created, and the hold on the
+session's reads is released by the scope guard (`holdReleasedOnEveryExit` in `C18_handover_pinned`; observed as `held=0`). -/
+theorem C18_upgrade_accepted_iff (u c k v : Bytes) :
+    upgradeDecision u c k v = .accept ↔
+      (lowerB u = tokWebsocket ∧ containsSub (lowerB c) tokUpgrade = true ∧ k ≠ [] ∧ v = tok13) := by
+  unfold upgradeDecision
+  by_cases h1 : lowerB u = tokWebsocket <;> by_cases h2 : containsSub (lowerB c) tokUpgrade = true <;>
+    by_cases h3 : k = [] <;> by_cases h4 : v = tok13 <;> simp [h1, h2, h3, h4]
+
+/-- the tokens are the strings of the source; `WebSocket` + `keep-alive, Upgrade` is accepted, `keep-alive` alone is a 400,
+`h2c` is not ours, version `8` is a 426 -/
+example : tokWebsocket = [119, 101, 98, 115, 111, 99, 107, 101, 116] ∧ tokUpgrade = [117, 112, 103, 114, 97, 100, 101] ∧ tok13 = [49, 51] := by decide
+example : upgradeDecision [87, 101, 98, 83, 111, 99, 107, 101, 116] [107, 101, 101, 112, 45, 97, 108, 105, 118, 101, 44, 32, 85, 112, 103, 114, 97, 100, 101] [120] [49, 51] = .accept ∧
+    upgradeDecision tokWebsocket [107, 101, 101, 112, 45, 97, 108, 105, 118, 101] [120] [49, 51] = .reject 400 ∧
+    upgradeDecision [104, 50, 99] [85, 112, 103, 114, 97, 100, 101] [120] [49, 51] = .notWebSocket ∧
+    upgradeDecision tokWebsocket [85, 112, 103, 114, 97, 100, 101] [120] [56] = .reject 426 := by decide
+
+/-! ## Client re-connection -/
+
+/-- **`doConnect` re-arms every per-connection field** (as found in the working tree: `Gen.Ws.clientConnectResets`):
+whatever the previous connection left - a failed protocol state, a sent CLOSE, an echoed CLOSE, unparsed bytes, half a
+message, a completed upgrade - the client that starts the next connection is exactly the fresh client waiting for its
+upgrade response, so every client theorem above applies to every connection, not only the first. -/
+theorem C18_reconnect_fresh (s : CSess) : cReconnect s = preUpgrade := by
+  cases s
+  simp [cReconnect, preUpgrade, Gen.Ws.clientConnectResets]
 
 /-! ## Client (`websocket_client.hpp`) -/
 
@@ -350,5 +470,54 @@ theorem W6_client_buffer_bounded (cfg : CCfg) (ops : List COp) :
 
 theorem W6_client_upgrade_bounded (cfg : CCfg) (ops : List COp) : CBounded cfg (cRun cfg preUpgrade ops).1 :=
   cRun_bounded cfg ops preUpgrade ⟨fun h => (by cases h), fun _ => (by simp [preUpgrade]), (by simp [preUpgrade])⟩
+
+/-! ## Server and client agree -/
+
+/-- the numeric opcodes the handlers of both models dispatch on are the enumerators of `enum class WsOpcode` in the working
+tree, and the control set is `isControlFrame`'s -/
+theorem W1_opcode_table :
+    Gen.Ws.opcodes = [("CONTINUATION", 0), ("TEXT", 1), ("BINARY", 2), ("CLOSE", 8), ("PING", 9), ("PONG", 10)] ∧
+    Gen.Ws.controlOpcodes = [8, 9, 10] := by decide
+
+/-- a delivery as (opcode, payload), for either endpoint -/
+def evMsg : Ev → Option (Nat × Bytes)
+  | .text b => some (1, b)
+  | .binary b => some (2, b)
+  | _ => none
+def cEvMsg : CEv → Option (Nat × Bytes)
+  | .text b => some (1, b)
+  | .binary b => some (2, b)
+  | _ => none
+
+/-- **"the server and the client deliver the same sequence of complete messages".** For the frames of a list of messages
+(unfragmented or fragmented, pings/pongs anywhere, optional final CLOSE - the streams RFC 6455 allows a peer to send), each
+within the common limit, a server fed ANY segmentation `ss` and a client fed ANY OTHER segmentation `ts` hand the same
+(opcode, payload) sequence to their applications, whatever their callbacks send meanwhile. -/
+theorem W4_server_client_same_messages (max : Nat) (cb : Cbs) (cfg : CCfg) (hmax : cfg.max = max)
+    (ms : List (Nat × Bytes)) (fs : List Frame) (hm : Msgs ms fs) (hv : ValidFrames max fs) (hfit : ∀ m ∈ ms, m.2.length ≤ max)
+    (ss ts : List Bytes) (hs : ss.flatten = stream fs) (ht : ts.flatten = stream fs) :
+    (msgs (run max cb {} (ss.map AppOp.data)).2).filterMap evMsg =
+      (cMsgs (cRun cfg {} (ts.map COp.data)).2).filterMap cEvMsg := by
+  subst hmax
+  rw [W4_messages_exact cfg.max cb ms fs hm hv hfit ss hs, W4_client_messages_exact cfg ms fs hm hv hfit ts ht]
+  clear hm hv hfit hs ht
+  induction ms with
+  | nil => rfl
+  | cons m ms ih =>
+    obtain ⟨op, pl⟩ := m
+    simp only [List.filterMap_cons, deliveryOf, cDeliveryOf]
+    by_cases h1 : op = 1
+    · by_cases hu : isValidUtf8 pl = true
+      · simp [h1, hu, evMsg, cEvMsg, ih]
+      · simp [h1, hu, ih]
+    · simp [h1, evMsg, cEvMsg, ih]
+
+/-- observation (NOT a violation: RFC 6455 5.5.1 forbids data frames after a CLOSE, so such a stream is outside the
+clause): on `binary, CLOSE, binary` the server - which has erased the session - delivers one message, the client - which
+only changes state - delivers both. The agreement theorem above is about streams whose CLOSE, if any, comes last. -/
+theorem W4_data_after_peer_close_observation :
+    msgs (run 100 {} {} [.data (stream [mkFrame 2 true [1], makeClose 1000 [], mkFrame 2 true [2]])]).2 = [.binary [1]] ∧
+    cMsgs (cRun {} {} [.data (stream [mkFrame 2 true [1], makeClose 1000 [], mkFrame 2 true [2]])]).2 = [.binary [1], .binary [2]] := by
+  decide
 
 end Iora.C18
